@@ -23,6 +23,8 @@ def problem(rng, kind):
     cfg["obs"] = dict(inputs=[[dy(rng) for _ in range(nv)] for _ in range(n)], vals=[[float(rng.randint(-2, 2))] for _ in range(n)])
     if kind == "ode":
         cfg["ic"] = dict(t0=dy(rng), u0=[float(rng.randint(-2, 2))])
+        if rng.random() < 0.5:       # a parameter batch on `a` (read by the equation only): every term keeps its own mask
+            cfg["a_batch"] = [dy(rng, 1, 3) for _ in range(n)]
     else:
         cfg["norm"] = dict(samples=[[dy(rng)] for _ in range(rng.randint(1, 3))], L=rng.choice([1.0, 2.0]))
         cfg["fb"] = prand(rng, nv, 1, 2) or {(0,) * nv: 1}
@@ -61,7 +63,8 @@ def build(cfg, masks):
         dk = (lambda **kw: jinns.parameters.DerivativeKeysODE.from_str(P, **kw) if use_str else jinns.parameters.DerivativeKeysODE(**kw))(dyn_loss=M("dyn_loss"), observations=M("observations"), initial_condition=M("initial_condition"))
         lw = jinns.loss.LossWeightsODE(dyn_loss=w["dyn_loss"], initial_condition=w["initial_condition"], observations=w["observations"])
         L = jinns.loss.LossODE(u=u, dynamic_loss=Eq(), derivative_keys=dk, loss_weights=lw, initial_condition=(cfg["ic"]["t0"], jnp.array(cfg["ic"]["u0"])))
-        batch = ODEBatch(temporal_batch=jnp.array(cfg["batch"])[:, 0], obs_batch_dict=obs)
+        pb = {"a": jnp.array(cfg["a_batch"])[:, None]} if cfg.get("a_batch") else None
+        batch = ODEBatch(temporal_batch=jnp.array(cfg["batch"])[:, 0], param_batch_dict=pb, obs_batch_dict=obs)
         return P, L, batch
     fb = cfg["fb"]
     pts = cfg["border"]
@@ -103,6 +106,8 @@ def descs(cfg, term):
     w = cfg["w"][term]
     kind = cfg["kind"]
     if term == "dyn_loss":
+        if cfg.get("a_batch"):       # sample i uses row i of the batch in place of the caller's a: a constant coefficient of U
+            return [f"(TMeanSq {cq(w)} {clist([row(0, ai, peval(cfg['q'], p), P(p)) for p, ai in zip(cfg['batch'], cfg['a_batch'])], str)})"]
         return [f"(TMeanSq {cq(w)} {clist([row(1, 0, peval(cfg['q'], p), P(p)) for p in cfg['batch']], str)})"]
     if term == "observations":
         return [f"(TMeanSq {cq(w)} {clist([row(0, 1, -v[0], P(i)) for i, v in zip(cfg['obs']['inputs'], cfg['obs']['vals'])], str)})"]
@@ -395,7 +400,7 @@ def generate(tier, seed, casedir, variant):
     # ids of the system files are local to them: the driver looks them up as "s<id>" when the file name says so
     meta.update(smeta); cases = cases + scases
     return dict(meta=meta, oracle_violations=viol, evaluations=len(cases), distinct_nontrivial=len(nontrivial), samples=samples, distribution=dist,
-                rule="assignments of {selected, not selected} to every (loss term, parameter group) pair, groups = network parameters, eq_params[a], eq_params[b] (all 512 for the ODE loss in the thorough tier, random ones otherwise, the default and five string-form specifications (built with from_str) always included), on random polynomial problems; jax.grad of the total and the value compared with the symbolic masked total; non-trivial = non-zero gradient; distinct by (loss kind, assignment); plus string / default / rejection checks; plus two-unknown system losses (ODE and non-stationary PDE) whose per-unknown derivative keys differ, groups = nn_params[u], nn_params[v], eq_params[a], eq_params[b]",
+                rule="assignments of {selected, not selected} to every (loss term, parameter group) pair, groups = network parameters, eq_params[a], eq_params[b] (all 512 for the ODE loss in the thorough tier, random ones otherwise, the default and five string-form specifications (built with from_str) always included), on random polynomial problems (half of the ODE ones with a parameter batch on the equation's parameter); jax.grad of the total and the value compared with the symbolic masked total; non-trivial = non-zero gradient; distinct by (loss kind, assignment); plus string / default / rejection checks; plus two-unknown system losses (ODE and non-stationary PDE) whose per-unknown derivative keys differ, groups = nn_params[u], nn_params[v], eq_params[a], eq_params[b]",
                 oracle_checks=len(cases) // 7 + 1, exhaustive=False)
 
 
